@@ -119,7 +119,7 @@ def run(ctx):
             tcs = TraceChecker(ctx, verdict, wd, "RtrSocketTrace", "RtrSocketTrace.cfg", "OK_STUB", timeout=P["tlc_timeout"])
             sc = os.path.join(ctx.replay, os.path.basename(meta["script"]))
             tr = os.path.join(wd, "traceS.ndjson")
-            rc_s, out_s = vlib.sh([exe_s, sc, tr], env=dict(vlib.SAN_ENV, VH_ALARM="300"), timeout=600)
+            rc_s, out_s = vlib.sh([exe_s, sc, tr], env=dict(vlib.SAN_ENV, VH_ALARM="120"), timeout=400)
             if rc_s != 0:
                 verdict.deviation("C15:socket-layer-%s" % ("silent-after-start" if rc_s == 3 else "crash"), "exit %d: %s" % (rc_s, out_s[-600:]), ctx.replay)
             else:
@@ -153,7 +153,7 @@ def run(ctx):
     scriptS = os.path.join(wd, "scriptS.ndjson")
     nS = fsmgen.write_stopstart_script(scriptS, seed, 12 if tier == "quick" else 120)
     traceS = os.path.join(wd, "traceS.ndjson")
-    rc_s, out_s = vlib.sh([exe_s, scriptS, traceS], env=dict(vlib.SAN_ENV, VH_ALARM="300"), timeout=600)
+    rc_s, out_s = vlib.sh([exe_s, scriptS, traceS], env=dict(vlib.SAN_ENV, VH_ALARM="120"), timeout=400)
     metaS = {"mode": "stub", "script": scriptS, "seed": seed}
     if rc_s != 0:
         mpath = os.path.join(wd, "meta.json")
